@@ -40,6 +40,7 @@ ASSUMPTIONS = ['In the scheduled part signal delivery is modelled: the handler r
                'bodies that need clean-up time shorter than cancel_timeout_s after the kill (template slow-exit) are included: the executor waits for them.',
                'A body that ran into its own phase timeout (180 virtual seconds) is abandoned by design (C12) and not counted as overlapping.']
 
+FOCUS_TEMPLATES = ('plain3', 'start+plain', 'group', 'subtest')
 TEMPLATES = ['plain3', 'start+plain', 'group', 'group-setup-blocks', 'nested', 'subtest', 'force-repeat', 'repeat-result', 'teardown-blocks', 'swallow', 'start-blocks', 'two-groups', 'slow-exit']
 
 
@@ -65,9 +66,9 @@ def build(template, htf, s, log):
       elif kind == 'slow-exit':
         try:
           while True:
-            s.sleep(1.0)
+            s.sleep(0.25)
         except threads.ThreadTerminationError:
-          s.sleep(1.0)    # clean-up that takes less than cancel_timeout_s (2 s): the executor waits for it
+          s.sleep(1.0)    # clean-up: with the <=0.25 s until the kill is noticed well below cancel_timeout_s (2 s)
           raise
       elif kind == 'swallow':
         try:
@@ -203,7 +204,10 @@ def abort_case(case):
     def aborter(i):
       while s.park('aborter%d' % i):
         log.append(('abort-enter', i, s.k))
-        test.abort_from_sig_int()
+        try:
+          test.abort_from_sig_int()
+        except Exception as e:  # pylint: disable=broad-except
+          log.append(('abort-raised', i, type(e).__name__, repr(e)[:160]))
         log.append(('abort-exit', i, s.k))
         return
 
@@ -307,6 +311,11 @@ def check(case):
             r.bad('C04/running-body-not-terminated', '%s plan=%r: %s body %r was running during the abort but never received ThreadTerminationError; log=%r' % (
                 tag, case.get('plan'), e[2], e[1], log))
             break
+  # the abort request itself returns (it is called from signal handlers and UI threads)
+  for e in log:
+    if e[0] == 'abort-raised':
+      r.bad('C04/abort-call-raised/%s' % e[2], '%s plan=%r: abort_from_sig_int() raised %s; log=%r' % (tag, case.get('plan'), e[3], log))
+      break
   # O5 callbacks exactly once
   if res['n_cb'] != 1:
     locs = [e[4] for e in log if e[0] == 'abort-enter' and len(e) > 4]
@@ -545,6 +554,16 @@ def run_job(job, acct):
     record(case, r)
   if job['stride'] == 1:
     acct.exhaustive_parts.append('%s via %s: one abort injected at every one of %d yield points' % (job['template'], job['via'], n))
+  # abort + one preemption INSIDE the abort call (kill / async_raise / stop run right after the injection point): the
+  # running body may finish, or the executor may move on, between any two lines of it.  Enumerated around every 8th
+  # abort position of the templates whose bodies end by themselves.
+  if job['via'] == 'thread' and job['template'] in FOCUS_TEMPLATES:
+    for k in ks[::8]:
+      for k2 in range(k + 1, k + 36):
+        for c in (0, 1, 2):
+          case = dict(base, plan={str(k): inj1, str(k2): c})
+          r, _ = check(case)
+          record(case, r)
   # two aborts / abort + one preemption: seeded sample
   import random  # pylint: disable=g-import-not-at-top
   rnd = random.Random(job['seed'] * 7919 + sum(map(ord, job['template'] + job['via'])))
